@@ -410,10 +410,23 @@ func tlStress(s *Stream, rng *Rng, withCancel bool, statusFocus bool) {
 		if ok && !waitUntil(2*time.Second, func() bool { return tl.Status().PendingTask == 0 }) {
 			s.Violate("pending-not-exact", fmt.Sprintf("lane at rest with everything finished but PendingTask=%d", tl.Status().PendingTask), sc)
 		}
-		st := tl.Status()
 		r.mu.Lock()
 		raised := append([]any{}, r.panicked...)
 		r.mu.Unlock()
+		// a task counts as finished when its Start() unwinds, which is BEFORE the worker's deferred
+		// recover stores the value: give the last store a moment before judging LastPanic
+		if len(raised) > 0 {
+			waitUntil(2*time.Second, func() bool {
+				lp := tl.Status().LastPanic
+				for _, v := range raised {
+					if reflect.DeepEqual(v, lp) {
+						return true
+					}
+				}
+				return false
+			})
+		}
+		st := tl.Status()
 		if len(raised) > 0 && ok && !nilPushed {
 			found := false
 			for _, v := range raised {
